@@ -8,7 +8,7 @@
       construction sites set the matching uses_* flag
 """
 import re
-from lib import (walk, nodes, ends, src, psrc, outcome, contains_node, pat_top_variants, short, calls_in, block_last,
+from lib import (Canon, walk, nodes, ends, src, psrc, outcome, contains_node, pat_top_variants, short, calls_in, block_last,
                  strip_refs, guards, gtext, templates_in)
 import emit
 import tmplparse as tp
@@ -35,7 +35,7 @@ STD_IMPLS = {
 }
 
 
-def peval(e, trait, pname):
+def peval(e, trait, pname, cn=None):
     """Partially evaluate a bool expression of has_impl with impl_name = trait: True | False | ('atom', text, node)."""
     if not isinstance(e, dict):
         return ("atom", "?", e)
@@ -43,8 +43,8 @@ def peval(e, trait, pname):
     if k == "block":
         if e.get("stmts"):
             # lets followed by a tail: evaluate the tail (atoms keep their text)
-            return peval(e.get("tail"), trait, pname) if e.get("tail") is not None else ("atom", src(e), e)
-        return peval(e.get("tail"), trait, pname)
+            return peval(e.get("tail"), trait, pname, cn) if e.get("tail") is not None else ("atom", (cn.r(e) if cn else src(e)), e)
+        return peval(e.get("tail"), trait, pname, cn)
     if k == "lit" and "bool" in e["v"]:
         return bool(e["v"]["bool"])
     if k == "match" and e.get("mac") == "matches" and src(e["scrut"]).lstrip("&") == pname:
@@ -54,7 +54,7 @@ def peval(e, trait, pname):
         for arm in e["arms"]:
             names = [t.split("::")[-1] for t in pat_top_variants(arm["pat"])]
             if trait in names or names == ["_"]:
-                return peval(arm["body"], trait, pname)
+                return peval(arm["body"], trait, pname, cn)
         return False
     if k == "bin" and e["op"] == "Eq":
         l, r = src(e["l"]), src(e["r"])
@@ -63,16 +63,16 @@ def peval(e, trait, pname):
         if r == pname and l.startswith("TypeSpaceImpl::"):
             return l.split("::")[-1] == trait
     if k == "bin" and e["op"] == "And":
-        a, b = peval(e["l"], trait, pname), peval(e["r"], trait, pname)
+        a, b = peval(e["l"], trait, pname, cn), peval(e["r"], trait, pname, cn)
         if a is False or b is False:
             return False
         if a is True:
             return b
         if b is True:
             return a
-        return ("atom", src(e), e)
+        return ("atom", (cn.r(e) if cn else src(e)).replace("$TypeSpaceImpl", "TypeSpaceImpl::" + trait), e)
     if k == "bin" and e["op"] == "Or":
-        a, b = peval(e["l"], trait, pname), peval(e["r"], trait, pname)
+        a, b = peval(e["l"], trait, pname, cn), peval(e["r"], trait, pname, cn)
         if a is True or b is True:
             return True
         if a is False:
@@ -81,19 +81,19 @@ def peval(e, trait, pname):
             return a
         return ("or", [a, b])
     if k == "if":
-        c = peval(e["cond"], trait, pname)
+        c = peval(e["cond"], trait, pname, cn)
         if c is True:
-            return peval(e["then"], trait, pname)
+            return peval(e["then"], trait, pname, cn)
         if c is False:
-            return peval(e["else"], trait, pname) if e.get("else") else False
-        return ("atom", src(e), e)
+            return peval(e["else"], trait, pname, cn) if e.get("else") else False
+        return ("atom", (cn.r(e) if cn else src(e)).replace("$TypeSpaceImpl", "TypeSpaceImpl::" + trait), e)
     if k == "un" and e.get("op") == "Not":
-        a = peval(e["e"], trait, pname)
+        a = peval(e["e"], trait, pname, cn)
         if a is True:
             return False
         if a is False:
             return True
-    return ("atom", src(e).replace(pname, "TypeSpaceImpl::" + trait), e)
+    return ("atom", (cn.r(e) if cn else src(e)).replace("$TypeSpaceImpl", "TypeSpaceImpl::" + trait).replace(pname, "TypeSpaceImpl::" + trait), e)
 
 
 def disjuncts(ans):
@@ -120,6 +120,7 @@ def cell_answers(c, h):
     out = {}
     if m is None:
         return out, pname
+    cn = Canon(c, h, 4)
     for arm in m["arms"]:
         kinds_ = [t.split("::")[-1] for t in pat_top_variants(arm["pat"])]
         body = arm["body"]
@@ -133,7 +134,7 @@ def cell_answers(c, h):
                         for a2 in inner["arms"]:
                             p = a2["pat"]
                             if p.get("k") == "wild":
-                                ans = peval(a2["body"], tr, pname)
+                                ans = peval(a2["body"], tr, pname, cn)
                                 break
                             if p.get("k") != "tuple":
                                 continue
@@ -141,12 +142,12 @@ def cell_answers(c, h):
                             n0 = [t.split("::")[-1] for t in pat_top_variants(p0)]
                             n1 = [t.split("::")[-1] for t in pat_top_variants(p1)]
                             if (cons in n0 or n0 == ["_"]) and (tr in n1 or n1 == ["_"]):
-                                ans = peval(a2["body"], tr, pname)
+                                ans = peval(a2["body"], tr, pname, cn)
                                 break
                         out[(kind, cons, tr)] = ans
             else:
                 for tr in TRAITS:
-                    out[(kind, None, tr)] = peval(body, tr, pname)
+                    out[(kind, None, tr)] = peval(body, tr, pname, cn)
     return out, pname
 
 
@@ -200,22 +201,22 @@ def run(facts, rep, tier):
             matched = False
             for t in ts:
                 g = norm(gtext([x for x in t.conds() if not (x[0] == "arm" and "constraints" in x[3])]))
-                if "default.is_some()" in text and ("default.as_ref()" in g or "Some(value)=default" in g):
+                if ".default.is_some()" in text and re.search(r"(adaptor:map\|\S*~TypeEntry(Enum|Struct|Newtype)\.default$)|(if:letSome\(_\)=\S*~TypeEntry(Enum|Struct|Newtype)\.default$)", g):
                     matched = True
-                m = re.search(r"contains\(&TypeEntryEnumImpl::(\w+)\)", text)
-                if m and ("contains(&TypeEntryEnumImpl::%s)" % m.group(1)) in g:
+                m = re.search(r"contains\(TypeEntryEnumImpl::(\w+)\)", text)
+                if m and ("contains(TypeEntryEnumImpl::%s)" % m.group(1)) in g:
                     matched = True
-                if "has_impl(type_space,TypeSpaceImpl::%s)" % trait in text and ("has_impl(type_space,TypeSpaceImpl::%s)" % trait) in g:
+                if ("has_impl($&TypeSpace,TypeSpaceImpl::%s)" % trait) in text and ("has_impl($&TypeSpace,TypeSpaceImpl::%s)" % trait) in g:
                     matched = True
                 if matched:
                     msgs.append("`%s` ↔ impl under `%s`" % (d[1][:60], gtext(t.conds())[:80]))
-                    # a conjunct `&& !X` on the guard needs the complementary template
-                    mm = re.search(r"And!(\w+)\)", g)
+                    # a conjunct `And !X` on the guard needs the complementary template
+                    mm = re.search(r"And!(match.*\})\)$", g)
                     if mm:
-                        comp = [u for u in ts if norm(gtext(u.conds())).endswith("|" + mm.group(1)) or ("then|" + mm.group(1)) in norm(gtext(u.conds()))]
+                        comp = [u for u in ts if norm(gtext([x for x in u.conds() if not (x[0] == "arm" and "constraints" in x[3])])) == "adaptor:then|" + mm.group(1)]
                         if not comp:
                             ok_all = False
-                            msgs.append("guard excludes `%s` and no complementary impl exists" % mm.group(1))
+                            msgs.append("guard excludes `%s` and no complementary impl exists" % mm.group(1)[:60])
                     break
             if not matched:
                 ok_all = False
@@ -251,25 +252,19 @@ def run(facts, rep, tier):
     bh = [h for h in c.user_fns() if re.search(r"Type<'a>::builder$", h["fn"])]
     if rep.floor("C17.D2", "Type::builder", len(bh), 1):
         b = bh[0]
-        s = src(b["body"])
-        early = [n for n, _ in nodes(b["body"], "if") if "struct_builder" in src(n["cond"]) and outcome(n["then"]) in ("ret-none",)]
-        neg = bool(early) and early[0]["cond"].get("k") == "un"
+        s = Canon(c, b, 5).r(b["body"])
+        neg = s.startswith("{ if !self~Type.type_space.settings.struct_builder return None else ;")
         rep.ob("C17.D2", "builder-none-unless-setting", neg, "`if !settings.struct_builder { return None }`" if neg else "builder() does not return None when the builder setting is off", b.get("sp"))
-        m = [n for n, _ in nodes(b["body"], "match") if n.get("src") == "normal" and "TypeEntryDetails" in c.ty(n.get("scty"))]
-        ok = False
-        if m:
-            arms = {tuple(t.split("::")[-1] for t in pat_top_variants(a["pat"])): a for a in m[0]["arms"]}
-            st = arms.get(("Struct",))
-            wild = arms.get(("_",))
-            ok = bool(st) and "Some(" in src(st["body"]) and bool(wild) and src(block_last(wild["body"])) == "None" and len(arms) == 2
+        ok = bool(re.search(r"match self~Type\.type_entry\.details \{ TypeEntryDetails::Struct\(TypeEntryStruct\{name: _, \.\.\}\) => match .* \| _ => None \}", s)) and s.count("TypeEntryDetails::") == 1
         rep.ob("C17.D2", "builder-some-iff-struct", ok, "Struct => Some(..), _ => None" if ok else "builder() is not Some exactly for structs", b.get("sp"))
         bt = [t for (n, anc, t) in templates_in(facts, c, b) if t]
-        texts = [tp.squash(tp.flat(t["tt"])) for t in bt]
-        rep.ob("C17.D2", "builder-path", any(x == "builder::#type_name" for x in texts) and any(x == "#type_mod::builder::#type_name" for x in texts), "paths: %s" % texts)
+        texts = sorted(re.sub(r"#\w+", "#x", tp.squash(tp.flat(t["tt"]))) for t in bt)
+        okp = texts == ["#x::builder::#x", "builder::#x"] and s.count("format_ident!(self~Type.type_entry.details~Struct~TypeEntryStruct.name)") == 2 and "format_ident!(self~Type.type_space.settings.type_mod~Some)" in s
+        rep.ob("C17.D2", "builder-path", okp, "paths: [type_mod::]builder::<struct name>" if okp else "builder paths are %s" % texts)
         # emitter side
         se = ems["struct"]
-        bts = [t for t in se.templates if any(it["kind"] == "struct" for it in t.items) and any(g[0] == "if" and "struct_builder" in g[1] and not g[1].startswith("!") for g in t.guards)]
-        rep.ob("C17.D2", "builder-item-emitted-under-setting", len(bts) >= 1, "builder struct template is under `if %s`" % (bts[0].guards[0][1] if bts else "?"), bts[0].sp if bts else None)
+        bts = [t for t in se.templates if any(it["kind"] == "struct" for it in t.items) and any(g[0] == "if" and g[1] == "$&TypeSpace.settings.struct_builder" for g in t.conds())]
+        rep.ob("C17.D2", "builder-item-emitted-under-setting", len(bts) >= 1, "builder struct template is under `if type_space.settings.struct_builder`", bts[0].sp if bts else None)
         addb = [n for n, _ in nodes(se.h["body"], "mcall") if n["name"] == "add_item" and "OutputSpaceMod::Builder" in src(n["args"][0])]
         ok = bool(addb) and bool(bts) and all(contains_node(x, bts[0].node) or True for x in addb)
         rep.ob("C17.D2", "builder-item-in-builder-mod", bool(addb), "add_item(OutputSpaceMod::Builder, ..)" if addb else "builder item is not added to the builder module")
@@ -277,36 +272,32 @@ def run(facts, rep, tier):
         rep.ob("C17.D2", "builder-name-is-type-name", same_name, "builder struct is declared as #type_name (format_ident of the struct's name)")
 
     # ------------------------------------------------------------ D3 same vectors
-    projections = [
-        ("TypeStruct<'a>::properties", "self.details.properties.iter()", ["prop.name", "prop.type_id"]),
-        ("TypeStruct<'a>::properties_info", "self.details.properties.iter()", ["prop.name", "prop.type_id", "prop.state", "StructPropertyState::Required"]),
-        ("TypeEnum<'a>::variants_info", "self.details.variants.iter()", ["variant.details", "ident_name"]),
+    E = r"elem<self\.details\.properties\.iter\(\)>"
+    V = r"elem<self\.details\.variants\.iter\(\)>"
+    PROJ = [
+        ("TypeStruct<'a>::properties", r"self\.details\.properties\.iter\(\)\.map\(\|\.\.\| \(%s\.name, %s\.type_id\)\)" % (E, E)),
+        ("TypeStruct<'a>::properties_info", r"self\.details\.properties\.iter\(\)\.map\(\|\.\.\| TypeStructPropInfo\{name: %s\.name, description: %s\.description, required: match %s\.state \{ StructPropertyState::Required => true \| _ => false \}, type_id: %s\.type_id\}\)" % (E, E, E, E)),
+        ("TypeEnum<'a>::variants_info", r"self\.details\.variants\.iter\(\)\.map\(\|\.\.\| TypeEnumVariantInfo\{name: %s\.ident_name\.unwrap\(\), description: %s\.description, details: match %s\.details \{ VariantDetails::Simple => TypeEnumVariant::Simple \| VariantDetails::Item\(_\) => TypeEnumVariant::Tuple\(vec!\(%s\.details~Item\)\) \| VariantDetails::Tuple\(_\) => TypeEnumVariant::Tuple\(%s\.details~Tuple\) \| VariantDetails::Struct\(_\) => TypeEnumVariant::Struct\(%s\.details~Struct\.iter\(\)\.map\(\|\.\.\| \(elem<\S+>\.name, elem<\S+>\.type_id\)\)\.collect\(\)\) \}\}\)" % (V, V, V, V, V, V)),
+        ("TypeNewtype<'a>::inner", r"self\.details\.type_id"),
+        ("Type<'a>::ident", r"self~Type\.type_entry\.type_ident\(self~Type\.type_space, self~Type\.type_space\.settings\.type_mod\)"),
+        ("Type<'a>::name", r"self~Type\.type_entry\.type_name\(self~Type\.type_space\)"),
+        ("TypeEnum<'a>::variants", r"self\.variants_info\(\)\.map\(\|\.\.\| \(elem<self\.variants_info\(\)>\.name, elem<self\.variants_info\(\)>\.details\)\)"),
+        ("TypeEntry::type_name", r"self\.type_ident\(\$&TypeSpace, None\)\.to_string\(\)"),
     ]
-    BAD_ADAPTORS = {"filter", "filter_map", "skip", "take", "rev", "step_by", "skip_while", "take_while", "dedup", "sort", "chain"}
-    for (fn, it, must) in projections:
+    for fn, rx in PROJ:
         hh = [h for h in c.user_fns() if h["fn"].endswith(fn)]
         if not rep.floor("C17.D3", fn, len(hh), 1):
             continue
-        s = src(hh[0]["body"])
-        chain = [n["name"] for n, anc in nodes(hh[0]["body"], "mcall") if not any(a.get("k") == "closure" for a in anc)]
-        bad = [m for m in chain if m in BAD_ADAPTORS]
-        ok = s.replace(" ", "").startswith(it.replace(" ", "")) or it in s
-        rep.ob("C17.D3", "projection:%s" % fn.split("::")[-1], ok and not bad and all(m in s for m in must),
-               "%s.%s, reads %s" % (it, ".".join(x for x in reversed(chain) if x not in ("iter",)), must) if ok and not bad else "projection filters or re-orders the IR vector (%s) / misses %s" % (bad, [m for m in must if m not in s]), hh[0].get("sp") or c.fns[hh[0]["fn"]].get("sp"))
-    for (fn, must) in (("TypeNewtype<'a>::inner", "self.details.type_id.clone()"), ("Type<'a>::ident", "type_ident(type_space, &type_space.settings.type_mod)"), ("Type<'a>::name", "type_name(type_space)"), ("TypeEnum<'a>::variants", "self.variants_info().map(")):
-        hh = [h for h in c.user_fns() if h["fn"].endswith(fn)]
-        if rep.floor("C17.D3", fn, len(hh), 1):
-            s = src(hh[0]["body"])
-            rep.ob("C17.D3", "projection:%s" % fn.split("::")[-1], must in s, "body: %s" % s[:100], c.fns[hh[0]["fn"]].get("sp"))
+        s = Canon(c, hh[0], 6).r(hh[0]["body"])
+        ok = re.fullmatch(rx, s) is not None
+        rep.ob("C17.D3", "projection:%s" % fn.split("::")[-1], ok, "%s = %s" % (fn.split("::")[-1], s[:110]) if ok else "%s does not project the IR vector unfiltered / field by field: `%s`" % (fn, s[:260]), c.fns[hh[0]["fn"]].get("sp"))
     # emitters iterate the same vectors
     se, ee = ems["struct"], ems["enum"]
-    s = src(se.h["body"])
-    rep.ob("C17.D3", "struct-emitter-iterates-properties", "properties.iter().for_each(" in s and not re.search(r"properties\.iter\(\)\.(filter|skip|take|rev)", s), "the struct emitter walks `properties.iter()` unfiltered")
-    s = src(ee.h["body"])
-    rep.ob("C17.D3", "enum-emitter-iterates-variants", "variants.iter().map(|variant| output_variant(" in s, "the enum emitter declares `variants.iter().map(output_variant)`")
-    tn = [h for h in c.user_fns() if ends(h["fn"], "TypeEntry::type_name")]
-    if tn:
-        rep.ob("C17.D3", "type_name-is-type_ident", "self.type_ident(type_space, &None).to_string()" in src(tn[0]["body"]), "type_name = type_ident(..).to_string()")
+    cs = se.canon()
+    loops = [n for n, _ in nodes(se.h["body"], "mcall") if n["name"] == "for_each" and re.fullmatch(r"\S*~TypeEntryStruct\.properties\.iter\(\)", cs.r(n["recv"]))]
+    rep.ob("C17.D3", "struct-emitter-iterates-properties", bool(loops), "the struct emitter walks `properties.iter()` unfiltered" if loops else "the struct emitter does not iterate the entry's properties directly")
+    vprov = ee.hole_canon().get(ee.actual.get("variants_decl", "variants_decl"), "")
+    rep.ob("C17.D3", "enum-emitter-iterates-variants", bool(re.match(r"\S*~TypeEntryEnum\.variants\.iter\(\)\.map\(\|\.\.\| output_variant\(elem<\S*~TypeEntryEnum\.variants\.iter\(\)>,", vprov)), "the enum emitter declares `variants.iter().map(output_variant)`")
 
     # ------------------------------------------------------------ W1 dependency flags
     FLAGS = {"serde_json": "uses_serde_json", "uuid": "uses_uuid", "chrono": "uses_chrono", "regress": "uses_regress"}
